@@ -277,6 +277,9 @@ func init() {
 				}
 				for i := 0; i < nh; i++ {
 					cs = append(cs, fw.Case{ID: fmt.Sprintf("history/rand/%d", i), Kind: "history", P: map[string]any{"i": i}})
+					if i < 40 {
+						cs = append(cs, fw.Case{ID: fmt.Sprintf("history/window/%d", i), Kind: "window", P: map[string]any{"i": i}})
+					}
 					if i < 2 {
 						cs = append(cs, fw.Case{ID: fmt.Sprintf("history/compiled/r1cs/%d", i), Kind: "histcompiled", P: map[string]any{"i": i, "sys": "r1cs"}})
 						if !ctx.Quick {
@@ -314,6 +317,75 @@ func init() {
 				var o fw.Outcome
 				r := ctx.Rand(c.ID)
 				switch c.Kind {
+				case "window":
+					// the caller observes consecutive windows of ONE slice, with other observations
+					// in between: the challenger must not keep (and later write through) the caller's
+					// backing array
+					n := 12 + r.Intn(12)
+					vals := make([]uint64, n)
+					for i := range vals {
+						vals[i] = randGL(r)
+					}
+					w := 1 + r.Intn(4)
+					extra := []uint64{randGL(r), randGL(r), randGL(r), randGL(r)}
+					pre := r.Intn(2) // squeeze first, so that the input buffer is empty
+					var outs []frontend.Variable
+					res := harnRunOpt(engine.Options{Face: engine.Native}, func(api frontend.API) error {
+						c := challenger.NewChip(api)
+						backing := make([]gl.Variable, n)
+						for i := range backing {
+							backing[i] = gl.NewVariable(vals[i])
+						}
+						if pre == 1 {
+							outs = append(outs, c.GetChallenge().Limb)
+						}
+						for off := 0; off+w <= n; off += w {
+							c.ObserveElements(backing[off : off+w])
+							switch (off / w) % 3 {
+							case 0:
+								c.ObserveElement(gl.NewVariable(extra[0]))
+							case 1:
+								c.ObserveHash(poseidon.GoldilocksHashOut{gl.NewVariable(extra[0]), gl.NewVariable(extra[1]), gl.NewVariable(extra[2]), gl.NewVariable(extra[3])})
+							case 2:
+								c.ObserveExtensionElement(gl.QuadraticExtensionVariable{gl.NewVariable(extra[1]), gl.NewVariable(extra[2])})
+							}
+						}
+						for _, v := range c.GetNChallenges(4) {
+							outs = append(outs, v.Limb)
+						}
+						// the caller's slice must be untouched
+						for i := range backing {
+							api.AssertIsEqual(backing[i].Limb, vals[i])
+						}
+						return nil
+					})
+					o.Events += events(res) + 1
+					if res.Verdict != engine.Accept {
+						return fw.Violate("challenger_modifies_callers_slice", fmt.Sprintf("windows of %d over %d values: %s %s", w, n, resStr(res), res.Msg))
+					}
+					rc := ref.NewChallenger()
+					var want []uint64
+					if pre == 1 {
+						want = append(want, rc.GetChallenge())
+					}
+					for off := 0; off+w <= n; off += w {
+						rc.ObserveElements(vals[off : off+w])
+						switch (off / w) % 3 {
+						case 0:
+							rc.ObserveElement(extra[0])
+						case 1:
+							rc.ObserveElements(extra)
+						case 2:
+							rc.ObserveElements(extra[1:3])
+						}
+					}
+					want = append(want, rc.GetN(4)...)
+					for i := range want {
+						if engine.Value(outs[i]).Uint64() != want[i] {
+							return fw.Violate("wrong_challenge", fmt.Sprintf("consecutive windows (width %d) of one slice with other observations in between: challenge %d circuit %s reference %d", w, i, engine.Value(outs[i]), want[i]))
+						}
+					}
+					o.Inc("window_histories_compared")
 				case "histcompiled":
 					// one history structure (which operations, how many values each) compiled with a
 					// real builder; the observed values are circuit variables, several value sets
@@ -1165,6 +1237,18 @@ func init() {
 						if res.Verdict == engine.Accept {
 							return fw.Violate("pow_difficulty_of_another_chip_used", fmt.Sprintf("%s (%s): the proof's response has %d leading zeros, the second chip is configured for %d and still accepted", c.ID, order, lz, lz+1))
 						}
+					}
+					// the description carries the FRI configuration twice; plonky2 takes the grinding
+					// requirement from fri_params.config: raising only that copy must be enough to refuse
+					{
+						onlyParams := in.Clone()
+						onlyParams.Common.FriParams.Config.ProofOfWorkBits = uint64(lz + 1)
+						res := runVerifier(onlyParams, engine.Options{Face: engine.Native})
+						o.Events += events(res)
+						if res.Verdict == engine.Accept {
+							return fw.Violate("pow_difficulty_read_from_the_wrong_configuration_copy", fmt.Sprintf("%s: response has %d leading zeros, fri_params.config.proof_of_work_bits = %d (config.fri_config unchanged) and the proof is accepted", c.ID, lz, lz+1))
+						}
+						o.Inc("fri_params_copy_decides_difficulty")
 					}
 					o.Inc("second_chip_uses_its_own_difficulty")
 					o.Sample = map[string]any{"response_leading_zeros": lz, "second_chip_pow_bits": lz + 1}
